@@ -5,6 +5,7 @@ import (
 	"fmt"
 	"math/rand/v2"
 	"sort"
+	"strings"
 
 	"verif/internal/gen"
 	"verif/internal/h"
@@ -273,8 +274,73 @@ func replayC11(c *h.Ctx, cs h.Case) {
 	runTables(c)
 }
 
+// existsStrictness: exists(e) in strict mode evaluates all of e (an item
+// after which e fails makes it unknown); in lax mode the first item decides.
+// That does not change below .**, which relaxes structural errors only.
+func existsStrictness(c *h.Ctx) {
+	els := []string{`1`, `"x"`, `"2"`, `1.5`}
+	var arrs [][]string
+	for _, a := range els {
+		arrs = append(arrs, []string{a})
+		for _, b := range els {
+			arrs = append(arrs, []string{a, b})
+			arrs = append(arrs, []string{a, b, "1"}, []string{"1", a, b})
+		}
+	}
+	conv := func(e string) bool { return e != `"x"` }
+	for i, arr := range arrs {
+		if !c.Mine(i) {
+			continue
+		}
+		doc := `{"k":[` + strings.Join(arr, ",") + `]}`
+		all, first := true, conv(arr[0])
+		for _, e := range arr {
+			all = all && conv(e)
+		}
+		for _, useNum := range []bool{false, true} {
+			for _, f := range []struct {
+				path   string
+				strict bool
+				n      int // items the path selects before the filter
+			}{
+				{"strict $ ? (exists(@.k[*].double()))", true, 1}, {"strict $.**{0} ? (exists(@.k[*].double()))", true, 1}, {"strict $.**{1} ? (exists(@[*].double()))", true, 1},
+				{"strict $.** ? (exists($.k[*].double()))", true, 2 + len(arr)}, {"strict $.**{0 to 1} ? (!(exists($.k[*].double())))", true, -1}, {"strict $.*.**{0} ? ((exists(@[*].double())) is unknown)", true, -2},
+				{"$ ? (exists(@.k[*].double()))", false, 1}, {"$.**{0} ? (exists(@.k[*].double()))", false, 1},
+			} {
+				p := cachedPath(f.path)
+				if p == nil {
+					c.Count("gen.unparsable", 1)
+					continue
+				}
+				o := h.Call("query", p, h.Decode(doc, useNum), h.Opts{})
+				c.Eval(1)
+				c.Distinct("exists-strictness", f.path, doc, fmt.Sprint(useNum))
+				truth := all
+				if !f.strict {
+					truth = first
+				}
+				want := 0
+				switch {
+				case f.n > 0 && truth:
+					want = f.n
+				case f.n == -1:
+					want = 0 // !(true) is false, !(unknown) is unknown: nothing kept either way
+				case f.n == -2 && !all:
+					want = 1 // unknown
+				}
+				if o.Class != h.OK || len(o.Items) != want {
+					c.Violate("exists", h.F("form", "strictness", "strict", fmt.Sprint(f.strict)), fmt.Sprintf("Query(%s) on %s = %s; %d items expected (every element converts: %v, the first one: %v)", f.path, doc, o.Summary(), want, all, first), h.Case{Kind: "exists-strictness", Path: f.path, Doc: doc, UseNum: useNum})
+				} else {
+					c.Held("exists")
+				}
+			}
+		}
+	}
+}
+
 func runC11(c *h.Ctx) {
 	runTables(c)
+	existsStrictness(c)
 	// random laws
 	r := c.Rand("c11")
 	g := &gen.G{R: r, C: gen.DefaultCfg()}
